@@ -218,7 +218,7 @@ func C12(c *core.Ctx) {
 				}
 			}
 		})
-		g := core.Gate(fn, accepts, pos(typeEq))
+		g := core.GateDeep(fn, accepts, pos(typeEq))
 		c.Decide(len(accepts) > 0 && g.OK && g.PassEdges > 0, "R12.2", "validator-type-gate:"+fn.Name(), p.Pos(fn.Pos()),
 			"a non-false verdict is reachable only on the edge asserting the expected SigType",
 			fn.Name()+" can accept a signature whose announced SigType is not the one it verifies")
@@ -333,14 +333,14 @@ func C12(c *core.Ctx) {
 			return 1, -1
 		}}
 		for _, a := range []*core.Atom{typOK, digOK} {
-			g := core.Gate(ck, okRets, neg(appNonNil), pos(a))
+			g := core.GateDeep(ck, okRets, neg(appNonNil), pos(a))
 			c.Decide(g.OK && g.PerLit[0] > 0 && g.PerLit[1] > 0, "R12.3", "params-digest-gate:"+a.Name, p.Pos(ck.Pos()),
 				"with parameters present, acceptance is reachable only through "+a.Name,
 				"an Interest carrying ApplicationParameters can be accepted without "+a.Name+" having been established (a tampered parameters block or digest is not rejected on decode)")
 		}
-		g := core.Gate(ck, okRets, neg(sigNonNil), pos(appNonNil))
+		g := core.GateDeep(ck, okRets, neg(sigNonNil), pos(appNonNil))
 		c.Decide(g.OK && g.PerLit[0] > 0, "R12.3", "signature-needs-params", p.Pos(ck.Pos()), "a SignatureValue without ApplicationParameters is rejected", "a signed Interest without ApplicationParameters is accepted")
-		g = core.Gate(ck, okRets, pos(nameNonNil))
+		g = core.GateDeep(ck, okRets, pos(nameNonNil))
 		c.Decide(g.OK && g.PassEdges > 0, "R12.3", "name-required", p.Pos(ck.Pos()), "acceptance requires a Name", "an Interest without Name is accepted")
 		// the hash is fed from context.digestCovered, every buffer
 		fed := false
@@ -400,19 +400,19 @@ func C12(c *core.Ctx) {
 			}
 			return 0, 0
 		}}
-		g := core.Gate(fn, rets, pos(parseOK))
+		g := core.GateDeep(fn, rets, pos(parseOK))
 		c.Decide(len(rets) > 0 && g.OK && g.PassEdges > 0, "R12.3", "entry-parse-error-gate:"+ep.name, p.Pos(fn.Pos()), "a packet is returned only when Parse returned no error", ep.name+" can return a packet although decoding failed")
 		switch ep.name {
 		case "ReadInterest", "ReadPacket":
-			g := core.Gate(fn, rets, neg(intr), pos(data), pos(ckOK))
+			g := core.GateDeep(fn, rets, neg(intr), pos(data), pos(ckOK))
 			c.Decide(g.OK && g.PerLit[2] > 0, "R12.3", "entry-checkInterest-gate:"+ep.name, p.Pos(fn.Pos()), "an Interest is returned only through checkInterest == nil", ep.name+" can return an Interest that did not pass checkInterest (parameters digest unchecked)")
 		case "ReadData":
 			nm := atomValNonNil("Data.Name!=nil", func(v ssa.Value) bool {
 				_, path := core.FieldPath(v)
 				return len(path) >= 2 && path[len(path)-1] == "NameV" && path[len(path)-2] == "Data"
 			})
-			g := core.Gate(fn, rets, pos(data))
-			g2 := core.Gate(fn, rets, pos(nm))
+			g := core.GateDeep(fn, rets, pos(data))
+			g2 := core.GateDeep(fn, rets, pos(nm))
 			c.Decide(g.OK && g.PassEdges > 0 && g2.OK && g2.PassEdges > 0, "R12.3", "entry-data-gates", p.Pos(fn.Pos()), "Data is returned only when present and named", "ReadData can return a nil or name-less Data")
 		}
 	}
